@@ -8,12 +8,16 @@ DIR = None
 T = {"a.txt": b"A", "x.tmp": b"X0", "y.tmp": b"Y0", "u.TMP": b"upper-case extension", ".DS_Store": b"finder", "sub": DIR, "sub/s.txt": b"S", "sub/x.tmp": b"SX",
      "d": DIR, "d/c.txt": b"C", "d/x.tmp": b"DX", "d/sub": DIR, "d/sub/t.txt": b"T", "patterns.lst": b"*.tmp\n\nsub/",
      # a FILE that has the name of a folder elsewhere, and a FOLDER that has the name of a file elsewhere (directory-only patterns)
-     "e": DIR, "e/sub": b"a file called sub", "cache": b"a file called cache", "d/cache": DIR, "d/cache/k.bin": b"K"}
+     "e": DIR, "e/sub": b"a file called sub", "cache": b"a file called cache", "d/cache": DIR, "d/cache/k.bin": b"K",
+     # names with characters that patterns have to escape
+     "take[1].mov": b"brackets", "d/#recycle": DIR, "d/#recycle/r.bin": b"R"}
 PSETS = [[], ["x.tmp"], ["*.tmp"], ["sub/"], ["sub"], ["*.tmp", "sub/"], ["x.tmp", "x.tmp"], ["y.tmp", "*.tmp"],
          # patterns with a separator are anchored at the command's root; a negated pattern re-includes (the last match decides)
          ["d/sub/t.txt"], ["sub/x.tmp"], ["d/sub/"], ["/x.tmp"], ["*.tmp", "!y.tmp"], ["sub/t.txt", "d/*.tmp"],
          # patterns are case sensitive: these are four different patterns
-         ["*.TMP"], ["*.TMP", "*.tmp"], ["SUB/"], ["X.tmp", "x.TMP"], ["cache/"], ["cache/", "sub/"]]
+         ["*.TMP"], ["*.TMP", "*.tmp"], ["SUB/"], ["X.tmp", "x.TMP"], ["cache/"], ["cache/", "sub/"],
+         # a backslash takes the next character literally
+         ["take\\[1\\].mov"], ["\\#recycle/", "take[1].mov"]]
 
 
 def file_patterns(tree, o):
